@@ -1,6 +1,6 @@
 SPECIFICATION Spec
 CONSTANTS
-  KeyMode = "address"
+  KeyMode = "perthread"
   MaxOps = 6
 INVARIANT Isolated
 VIEW StateView
